@@ -504,6 +504,9 @@ class HexGrid(StructuredGrid):
     def changePitch(self, newPitchCm: float):
         """Change the hex pitch."""
         unitSteps = np.array(HexGrid._getRawUnitSteps(newPitchCm, self.cornersUp))
+        if 2 in self._stepDims[0]:
+            # the pitch is the spacing in the x-y plane: the axial step of a 3-D grid is kept
+            unitSteps[2] = self._unitSteps[2]
         self._unitSteps = unitSteps[self._stepDims]
 
     def locatorInDomain(self, locator, symmetryOverlap: Optional[bool] = False) -> bool:
